@@ -82,7 +82,7 @@ Print Assumptions C08_where_any_means_any.
     cache those conditions select no row (so List() = {} is what executes) *)
 Theorem C08_where_model_without_hit : forall T specs c,
   Inv T specs c ->
-  Forall (fun idx => exists i s, specs !! i = Some s /\ i_cols s = map (fun col => (col, None)) idx) (t_indexes T) ->
+  (forall j idx, t_indexes T !! j = Some idx -> exists s, specs !! j = Some s /\ i_cols s = map (fun col => (col, None)) idx) ->
   find_col T ucol = None ->
   forall m cs, rbm_step T specs c ∅ m = ∅ -> model_eq_conds T m = Some cs -> filter_rows (rc_rows c) cs = ∅.
 Proof. exact model_nohit_selects_nothing. Qed.
@@ -108,7 +108,7 @@ Print Assumptions C08_where_model_uses_usable_index.
 Theorem C08_api_affects_exactly_listed : forall S T,
   find_table S (t_name T) = Some T -> forall specs c,
   Inv T specs c ->
-  Forall (fun idx => exists i s, specs !! i = Some s /\ i_cols s = map (fun col => (col, None)) idx) (t_indexes T) ->
+  (forall j idx, t_indexes T !! j = Some idx -> exists s, specs !! j = Some s /\ i_cols s = map (fun col => (col, None)) idx) ->
   find_col T ucol = None -> forall d,
   get_tbl d (t_name T) = rc_rows c ->
   forall cd k conds d0,
@@ -128,7 +128,7 @@ Print Assumptions C08_api_affects_exactly_listed.
 Theorem C08_api_delete_exact : forall S T,
   find_table S (t_name T) = Some T -> forall specs c,
   Inv T specs c ->
-  Forall (fun idx => exists i s, specs !! i = Some s /\ i_cols s = map (fun col => (col, None)) idx) (t_indexes T) ->
+  (forall j idx, t_indexes T !! j = Some idx -> exists s, specs !! j = Some s /\ i_cols s = map (fun col => (col, None)) idx) ->
   find_col T ucol = None -> forall d,
   get_tbl d (t_name T) = rc_rows c ->
   forall cd conds d0,
